@@ -8,6 +8,7 @@ mod osfault;
 mod props;
 mod refmodel;
 mod ring;
+mod sched;
 
 use engine::{RunOpts, Tier, replay_property, run_property};
 
@@ -21,6 +22,8 @@ macro_rules! dispatch {
         match $id {
             "C01" => $f(&props::c01::C01, $($arg),*),
             "C02" => $f(&props::c02::C02, $($arg),*),
+            "C03" => $f(&props::c03::C03, $($arg),*),
+            "C04" => $f(&props::c04::C04, $($arg),*),
             "C08" => $f(&props::c08::C08, $($arg),*),
             "C09" => $f(&props::c09::C09, $($arg),*),
             "C10" => $f(&props::c10::C10, $($arg),*),
